@@ -265,10 +265,54 @@ impl GraphModel {
         if has_cycle(&names, &self.effective_edges(false)) {
             Some("include-inside-ancestor-block-reentered-through-super")
         } else if has_cycle(&names, &self.effective_edges(true)) {
-            Some("include-cycle-through-component-call")
+            // Cut by the component depth limit after 20 rounds. Each round costs roughly
+            // (ancestors + 2) interpreter frames per template on the cycle; measured in this
+            // build: a single template with 7 ancestors still ends in the limit's error, 8
+            // overflow 2 MiB. Cheap rounds are rendered in-process (they must end in the error —
+            // a change that lets the limit be bypassed kills the worker and is reported);
+            // expensive ones are the known shape F5.
+            if self.component_cycle_round_cost() <= 6 {
+                None
+            } else {
+                Some("include-cycle-through-component-call")
+            }
         } else {
             None
         }
+    }
+
+    /// max over cyclic strongly connected components (effective graph incl. component edges) of
+    /// the sum of (ancestors + 2) of their nodes
+    fn component_cycle_round_cost(&self) -> usize {
+        let edges = self.effective_edges(true);
+        let names: Vec<&String> = self.nodes.keys().collect();
+        let reach = |from: &String| -> BTreeSet<String> {
+            let mut seen: BTreeSet<String> = BTreeSet::new();
+            let mut todo: Vec<String> = edges.get(from).map(|s| s.iter().cloned().collect()).unwrap_or_default();
+            while let Some(n) = todo.pop() {
+                if seen.insert(n.clone()) {
+                    if let Some(es) = edges.get(&n) {
+                        todo.extend(es.iter().cloned());
+                    }
+                }
+            }
+            seen
+        };
+        let reaches: BTreeMap<&String, BTreeSet<String>> = names.iter().map(|n| (*n, reach(n))).collect();
+        let mut best = 0;
+        for n in &names {
+            if !reaches[*n].contains(*n) {
+                continue;
+            }
+            let cost: usize = names.iter().filter(|m| reaches[*n].contains(**m) && reaches[**m].contains(*n)).map(|m| self.ancestors(m).len() + 2).sum();
+            best = best.max(cost);
+        }
+        best
+    }
+
+    pub fn has_component_cycle(&self) -> bool {
+        let names: Vec<String> = self.nodes.keys().cloned().collect();
+        !has_cycle(&names, &self.effective_edges(false)) && has_cycle(&names, &self.effective_edges(true))
     }
 
     pub fn max_depth(&self) -> usize {
